@@ -137,6 +137,14 @@ def cases(rng, tier):
         l0, n0, _s = L.rand_script(rng, hist=hist)
         sb = pool[rng.randrange(len(pool))]
         out.append(hist_case("pair-generated", f"rand+{sb[0]}", [(l0, n0), (sb[1], sb[2])], rng.sample(pair_progs, 2), None))
+    # 4b. pairs of generated scripts over ONE small name table (the scripts of a movie share their names: the same name is a
+    # symbol in one script and a method selector, global or handler name in the other)
+    small = [b"put", b"x", b"y", b"me", b"mNew", b"mDo", b"loop", b"next", b"gList", b"count", b"getAt", b"return", b"new", b"go", b"cast", b"sound"]
+    for _ in range(npairs // 2):
+        nm = list(small); rng.shuffle(nm)
+        l0, n0, _s = L.rand_script(rng, hist=hist, names=nm)
+        l1, n1, _s = L.rand_script(rng, hist=hist, names=nm)
+        out.append(hist_case("pair-shared-names", "rand+rand", [(l0, n0), (l1, n1)], rng.sample(pair_progs, 2), None))
     cases.hist = hist
     return out
 
